@@ -162,6 +162,8 @@ type Run struct {
 	roleLogs map[string][]string
 	cleanups []func()
 	afters   []func()
+	// Scrub removes run-specific random strings (e.g. the muxer's URI prefix) from traces and messages.
+	Scrub func(string) string
 }
 
 // Task is a harness goroutine that executes closures given by the scheduler.
@@ -348,6 +350,9 @@ func (r *Run) Now() time.Duration { return time.Since(r.start) }
 // Tracef appends one line to the scheduler trace (scheduler goroutine only).
 func (r *Run) Tracef(format string, a ...any) {
 	s := fmt.Sprintf(format, a...)
+	if r.Scrub != nil {
+		s = r.Scrub(s)
+	}
 	line := fmt.Sprintf("%4d t=%-10v %s", r.Stats.Steps, r.Now(), s)
 	r.trace = append(r.trace, line)
 	h := fnv.New64a()
@@ -398,7 +403,11 @@ func (r *Run) Fail(oracle, key, format string, a ...any) {
 	if r.viol != nil {
 		return
 	}
-	r.viol = &Violation{Property: r.Prop, Oracle: oracle, Key: key, Msg: fmt.Sprintf(format, a...)}
+	msg := fmt.Sprintf(format, a...)
+	if r.Scrub != nil {
+		msg, key = r.Scrub(msg), r.Scrub(key)
+	}
+	r.viol = &Violation{Property: r.Prop, Oracle: oracle, Key: key, Msg: msg}
 	r.trace = append(r.trace, "VIOLATION "+r.viol.String())
 }
 
